@@ -8,8 +8,8 @@ from ..core import Script, Rng
 from ..stage import LineStage, replay_line
 from . import io_gen
 
-ARTEFACTS = ["G1-consts", "G12-io"]
-EXTRA_PROPS = [("B3.Props.C11T", "B3/Props/C11T.lean")]   # theorems about the code translated from the sources
+ARTEFACTS = ["G4-listings", "G1-consts", "G12-io"]
+EXTRA_PROPS = [("B3.Props.Surface", "B3/Props/Surface.lean"), ("B3.Props.C11T", "B3/Props/C11T.lean")]   # theorems about the code translated from the sources
 PROPS_MODULE = "B3.Io.Props"
 PROPS_PATH = "B3/Io/Props.lean"
 RULE = ("(1) scripted readers through update_reader: ALL event sequences up to length 3 (quick) / 4 (thorough; lengths 5 and 6 were run once: 137k scripts) over {data 1, data 65536, "
@@ -18,7 +18,7 @@ RULE = ("(1) scripted readers through update_reader: ALL event sequences up to l
         "with the model (copy_wide over the event list feeding the hasher model) and the spec hash of the bytes yielded before the first "
         "fail/eof; (2) real files of every length 16380..16390, 0, 1, 65535..65537, 1 MiB and special files (/proc, /dev/null, a "
         "directory, a missing path, FIFOs) through update_mmap / update_mmap_rayon / update_reader, compared with plain update of the "
-        "same bytes; (3) Write::write; non-trivial = script with at least one data event; distinct = distinct script")
+        "same bytes; (3) Write::write and Write::write_vectored (slice shapes mixing short, chunk-sized and long slices, repeated until all is accepted); non-trivial = script with at least one data event; distinct = distinct script")
 ASSUMPTIONS = ["RegularFile / FaithfulReads (B3/Io/Model.lean): lseek(End(-16383)) fails for L < 16383, returns L-16383 otherwise; reads return the file's bytes",
                "a file modified while it is mapped or read is out of scope"]
 NOT_PROVED = ["OS and memmap2 behaviour on real files is observed (strace-validated by the builder), not proved"]
@@ -72,6 +72,8 @@ def stages(tier, seed, witness_search=False):
         n *= 3
     scripts = io_gen.exhaustive_reader_scripts(rng, exh, True) + [io_gen.random_reader_script(rng, True) for _ in range(n)]
     scripts += [io_gen.write_script(rng, k) for k in (0, 1, 64, 1024, 70000)]
+    scripts += [io_gen.writev_script(rng, sh) for sh in ([16, 4096], [1, 1, 1, 2000], [1024, 1], [1023, 1025], [0, 5, 0, 1024, 7])]
+    scripts += [io_gen.writev_script(rng) for _ in range(20 if tier == "quick" else 400)]
     return [LineStage("readers", [to_script(s) for s in scripts]), FileStage(seed, fifo=True)]
 
 
